@@ -17,11 +17,21 @@ import (
 type Graph struct {
 	N     int     `json:"n"`
 	Edges [][]int `json:"edges"` // Edges[i][j] = kind of the import i -> j (0: none)
+	// Names selects the module names: 0 a, b, c, ...; 1 a, ab, abc, ... (every
+	// name a prefix of the next); 2 z, y, x, ... (later modules sort first, and
+	// all of them after "main")
+	Names int `json:"names,omitempty"`
 }
 
-func nodeName(i int) string {
+func (g *Graph) name(i int) string {
 	if i == 0 {
 		return "main"
+	}
+	switch g.Names {
+	case 1:
+		return "abcdefghijklmnop"[:i]
+	case 2:
+		return string(rune('z' - i + 1))
 	}
 	return string(rune('a' + i - 1))
 }
@@ -89,7 +99,7 @@ func (g *Graph) String() string {
 	for i := 0; i < g.N; i++ {
 		for j := 0; j < g.N; j++ {
 			if k := g.Edges[i][j]; k != 0 {
-				parts = append(parts, fmt.Sprintf("%s->%s%s", nodeName(i), nodeName(j), []string{"", "", "(as)", "(x2)"}[k]))
+				parts = append(parts, fmt.Sprintf("%s->%s%s", g.name(i), g.name(j), []string{"", "", "(as)", "(x2)"}[k]))
 			}
 		}
 	}
@@ -111,9 +121,13 @@ func (g *Graph) Project() Project {
 		useType := func(q string, j int) {
 			fmt.Fprintf(&via, "fn Via%s() -> %s::P {\n    return %s::Mk();\n}\n\n", q, q, q)
 			terms = append(terms, fmt.Sprintf("Via%s().X - %d", q, nodeVal(j)))
+			// ... and in a type declaration of its own (a struct field): resolved when
+			// this module's types are collected, so the dependency must come first
+			fmt.Fprintf(&via, "type W%s struct {\n    .Inner: %s::P\n};\n\nfn Wrap%s() -> i64 {\n    let boxed: W%s = { .Inner = %s::Mk() };\n    return boxed.Inner.X;\n}\n\n", q, q, q, q, q)
+			terms = append(terms, fmt.Sprintf("Wrap%s() - %d", q, nodeVal(j)))
 			// and the types j's own signatures take from ITS dependencies (two hops away)
 			for k := 0; k < g.N; k++ {
-				kn := nodeName(k)
+				kn := g.name(k)
 				switch g.Edges[j][k] {
 				case 1:
 					terms = append(terms, fmt.Sprintf("%s::Via%s().X - %d", q, kn, nodeVal(k)))
@@ -125,7 +139,7 @@ func (g *Graph) Project() Project {
 			}
 		}
 		for j := 0; j < g.N; j++ {
-			n := nodeName(j)
+			n := g.name(j)
 			switch g.Edges[i][j] {
 			case 1:
 				fmt.Fprintf(&b, "import \"p/%s\";\n", n)
@@ -153,7 +167,7 @@ func (g *Graph) Project() Project {
 		if i == 0 {
 			b.WriteString("\nfn main() {\n    io::Println(V());\n}\n")
 		}
-		p.Files[nodeName(i)+".fer"] = b.String()
+		p.Files[g.name(i)+".fer"] = b.String()
 	}
 	return p
 }
@@ -238,6 +252,9 @@ func RandomGraph(r *core.Rng, n int) *Graph {
 			}
 		}
 	}
+	if r.Chance(1, 3) {
+		g.Names = 1 + r.Intn(2)
+	}
 	// back edges / self loops in about half of the graphs
 	if r.Chance(1, 2) {
 		k := 1 + r.Intn(2)
@@ -291,22 +308,22 @@ func judgeC15Unit(g *Graph, u *Unit, rr *RunResult, i int) []Issue {
 		issues = append(issues, Issue{"dag-no-artifact", "exit 0 but no executable at the output path"})
 	}
 	for n := 0; n < g.N; n++ {
-		_, have := c.File(ssaName(nodeName(n)))
+		_, have := c.File(ssaName(g.name(n)))
 		if reach[n] && !have {
-			issues = append(issues, Issue{"dag-module-missing", fmt.Sprintf("reachable module %s has no generated unit", nodeName(n))})
+			issues = append(issues, Issue{"dag-module-missing", fmt.Sprintf("reachable module %s has no generated unit", g.name(n))})
 		}
 		if !reach[n] && have {
-			issues = append(issues, Issue{"dag-module-extra", fmt.Sprintf("unreachable module %s was compiled", nodeName(n))})
+			issues = append(issues, Issue{"dag-module-extra", fmt.Sprintf("unreachable module %s was compiled", g.name(n))})
 		}
 	}
 	// each module file read exactly once
 	for n := 0; n < g.N; n++ {
-		cnt := c.Sim.Probes["readfile:"+filepath.Join(ud, "proj", "p", nodeName(n)+".fer")]
+		cnt := c.Sim.Probes["readfile:"+filepath.Join(ud, "proj", "p", g.name(n)+".fer")]
 		if reach[n] && cnt != 1 {
-			issues = append(issues, Issue{"dag-module-not-once", fmt.Sprintf("module %s was read %d times (expected exactly once)", nodeName(n), cnt)})
+			issues = append(issues, Issue{"dag-module-not-once", fmt.Sprintf("module %s was read %d times (expected exactly once)", g.name(n), cnt)})
 		}
 		if !reach[n] && cnt != 0 {
-			issues = append(issues, Issue{"dag-module-extra", fmt.Sprintf("unreachable module %s was read", nodeName(n))})
+			issues = append(issues, Issue{"dag-module-extra", fmt.Sprintf("unreachable module %s was read", g.name(n))})
 		}
 	}
 	if u.Tools == "real" && haveExe {
